@@ -7,7 +7,7 @@ import uuid
 from fractions import Fraction as F
 
 from rv.core import ctx as _ctx
-from rv.core import instrument
+from rv.core import instrument, scribble
 from rv.core.tolerances import ULP_BAND_REL
 
 ANCHORS = ("operations.py",)
@@ -189,6 +189,39 @@ def judge(ctx, start, end, duration, hop, inc, ids=False):
     except Exception as e:
         ctx.violate_exc("unexpected_exception", f"unexpected_exception:{type(e).__name__}", e, spec=spec)
         return
+    if ctx.every(spec, 8):
+        try:
+            # two lazily consumed segmentations alive at once (zip over two clips): each stream judged on its own
+            orig = instrument.original(O.segment_clip)
+            other = _clip(start + 0.5, end + 1.25, uid=uuid.UUID(int=12))
+            ga, gb = iter(orig(clip, duration, hop=hop, include_incomplete=inc)), iter(orig(other, duration, hop=hop, include_incomplete=not inc))
+            ia, ib, live = [], [], [True, True]
+            while any(live):
+                for k, (g, acc) in enumerate(((ga, ia), (gb, ib))):
+                    if live[k]:
+                        try:
+                            acc.append(next(g))
+                        except StopIteration:
+                            live[k] = False
+            ctx.mon("interleaved_streams")
+            _observe(clip, duration, hop, inc, ia, None)
+            _observe(other, duration, hop, not inc, ib, None)
+            # the caller owns the returned clips: it edits them and segments an equal clip again
+            victim = list(O.segment_clip(_clip(start, end), duration, hop=hop, include_incomplete=inc))
+            if scribble.scribble(victim) or True:
+                for sg in victim[:3]:
+                    if not hasattr(sg, "start_time"):
+                        continue
+                    try:
+                        sg.start_time, sg.end_time = sg.end_time + 100.0, sg.end_time + 101.0
+                    except Exception:
+                        pass
+                ctx.mon("repeat_after_result_edit")
+                list(O.segment_clip(_clip(start, end), duration, hop=hop, include_incomplete=inc))
+        except ValueError:
+            pass
+        except Exception as e:
+            ctx.violate_exc("unexpected_exception", f"unexpected_exception:{type(e).__name__}", e, spec=spec)
     if ids and segs:
         ctx.mon("id_determinism")
         again = list(O.segment_clip(clip, duration, hop=hop, include_incomplete=inc))
